@@ -18,6 +18,10 @@ type printer struct {
 	output io.Writer
 	state  printerState
 	last   []byte
+	// end offset of the last source token written (-1 if the last chunk did not come from the source)
+	lastEnd int
+	// the chunk being written directly follows the previous one in the source
+	adjacent bool
 }
 
 func NewPrinter(output io.Writer) *printer {
@@ -54,12 +58,28 @@ func (p *printer) write(b []byte) {
 		p.state = PrinterStatePHP
 	}
 
-	if p.last != nil && isValidVarName(p.last[len(p.last)-1]) && isValidVarName(b[0]) {
+	if p.last != nil && isValidVarName(p.last[len(p.last)-1]) && isValidVarName(b[0]) && !p.adjacent {
 		p.output.Write([]byte(" "))
 	}
 
 	p.last = b
+	p.lastEnd = -1
 	p.output.Write(b)
+}
+
+// writeToken writes a token's text; two tokens that touch each other in the source (`1and`) stay unseparated.
+func (p *printer) writeToken(t *token.Token) {
+	if len(t.Value) == 0 {
+		return
+	}
+
+	p.adjacent = p.last != nil && t.Position != nil && p.lastEnd == t.Position.StartPos
+	p.write(t.Value)
+	p.adjacent = false
+
+	if t.Position != nil {
+		p.lastEnd = t.Position.EndPos
+	}
 }
 
 func (p *printer) printNode(n ast.Vertex) {
@@ -96,9 +116,9 @@ func (p *printer) printToken(t *token.Token, def []byte) {
 	}
 
 	for _, ff := range t.FreeFloating {
-		p.write(ff.Value)
+		p.writeToken(ff)
 	}
-	p.write(t.Value)
+	p.writeToken(t)
 }
 
 func (p *printer) ifNode(n ast.Vertex, val []byte) []byte {
